@@ -117,6 +117,48 @@ fn random_schedule(r: &mut ChaCha20Rng, len: usize) -> Vec<Value> {
     out
 }
 
+static PANICS: std::sync::atomic::AtomicU64 = std::sync::atomic::AtomicU64::new(0);
+
+/// a panic of the code under test while a future is polled is data: the process would have stopped there
+struct CatchUnwind<'a, T>(std::pin::Pin<Box<dyn std::future::Future<Output = T> + 'a>>);
+
+impl<'a, T> std::future::Future for CatchUnwind<'a, T> {
+    type Output = Result<T, String>;
+    fn poll(mut self: std::pin::Pin<&mut Self>, cx: &mut std::task::Context<'_>) -> std::task::Poll<Self::Output> {
+        let inner = &mut self.0;
+        match std::panic::catch_unwind(std::panic::AssertUnwindSafe(|| inner.as_mut().poll(cx))) {
+            Ok(std::task::Poll::Ready(v)) => std::task::Poll::Ready(Ok(v)),
+            Ok(std::task::Poll::Pending) => std::task::Poll::Pending,
+            Err(e) => {
+                let msg = e.downcast_ref::<&str>().map(|s| s.to_string()).or_else(|| e.downcast_ref::<String>().cloned()).unwrap_or_else(|| "<panic>".into());
+                std::task::Poll::Ready(Err(msg))
+            }
+        }
+    }
+}
+
+/// one stimulus; if the aggregator panics the process died there: it is restarted from its database (as an operator's
+/// supervisor would) and the stimulus is reported with the panic. `None`: the restart itself died (schedule abandoned).
+async fn act_or_restart(h: &mut Harness, a: &Value) -> Option<Value> {
+    let hook = std::panic::take_hook();
+    std::panic::set_hook(Box::new(|_| {}));
+    let r = CatchUnwind(Box::pin(h.act(a))).await;
+    let out = match r {
+        Ok(v) => Some(v),
+        Err(msg) => {
+            let restart = json!({"a":"Restart"});
+            match CatchUnwind(Box::pin(h.act(&restart))).await {
+                // (fields other results carry are present with neutral values, so that the contract reads them safely)
+                Ok(_) => Some(json!({"ok": false, "panic": msg.chars().take(200).collect::<String>(), "restarted": true,
+                                     "hit": false, "at": "", "entity": "", "items": [], "status": "", "err": "panic"})),
+                Err(_) => None,
+            }
+        }
+    };
+    std::panic::set_hook(hook);
+    out
+}
+
 fn main() {
     let args = Args::parse();
     let seed = args.num("seed", 1);
@@ -138,8 +180,14 @@ fn main() {
             let mut h = new_harness(work.join(format!("run{si}"))).await;
             let obs = h.project().await;
             trace.emit(json!({"ev":"Start","obs":obs,"nsigners":NSIGNERS,"k":h.params.k}));
-            for a in schedule {
-                let res = h.act(a).await;
+'schedule: for a in schedule {
+                let Some(res) = act_or_restart(&mut h, a).await else {
+                    eprintln!("PANIC (data): schedule {si} abandoned, the restart died as well");
+                    break 'schedule;
+                };
+                if res["panic"].is_string() {
+                    PANICS.fetch_add(1, std::sync::atomic::Ordering::Relaxed);
+                }
                 // let the spawned artifact task run to completion before observing
                 for _ in 0..20 {
                     tokio::task::yield_now().await;
@@ -170,7 +218,10 @@ fn main() {
                         script.push(json!({"a":"Tick"}));
                     }
                     for a in &script {
-                        let res = h.act(a).await;
+                        let Some(res) = act_or_restart(&mut h, a).await else { break };
+                        if res["panic"].is_string() {
+                            PANICS.fetch_add(1, std::sync::atomic::Ordering::Relaxed);
+                        }
                         for _ in 0..20 {
                             tokio::task::yield_now().await;
                         }
@@ -191,7 +242,8 @@ fn main() {
         let _ = std::fs::remove_dir_all(work.join(format!("run{si}")));
     }
     let n = trace.finish();
-    eprintln!("{}", json!({"events": n, "actions": actions, "schedules": schedules.len(), "certificates": certs_total}));
+    eprintln!("{}", json!({"events": n, "actions": actions, "schedules": schedules.len(), "certificates": certs_total,
+        "panics_of_the_code_under_test": PANICS.load(std::sync::atomic::Ordering::Relaxed)}));
 }
 
 #[allow(dead_code)]
